@@ -41,10 +41,15 @@ def impl_call(case):
         wl = None if case.get('wl') is None else np.array([float(unq(x)) for x in case['wl']])
         before = sp(xs).value.copy()
         t = sp.taper(wavelengths=wl)
+        rev = None
+        if wl is not None:
+            # the same sampling wavelengths in the other order must give the same tapered spectrum
+            t2 = build(case).taper(wavelengths=wl[::-1])
+            rev = bool(np.array_equal(t2(xs).value, t(xs).value, equal_nan=True))
         if t is sp:
-            return {'same': True, 'vals': sp(xs).value}
+            return {'same': True, 'vals': sp(xs).value, '_rev_same': rev}
         return {'same': False, 'pts': t.model.points[0], 'tvals': t.model.lookup_table,
-                'vals': t(xs).value, 'tapered': bool(t.model.is_tapered()), '_before': before}
+                'vals': t(xs).value, 'tapered': bool(t.model.is_tapered()), '_before': before, '_rev_same': rev}
     return guarded(ev if op == 'table_eval' else tp)
 
 
@@ -145,6 +150,8 @@ def oracle(rep, case, out):
     p, v = ascending(case)
     if not case['keep_neg']:
         v = [max(y, 0) for y in v]
+    if o.get('_rev_same') is False:
+        rep.oracle_fail('taper:order_of_wavelengths', 'taper(wavelengths=w) and taper(wavelengths=w[::-1]) sample differently', case, out)
     if case.get('scale') is not None and case.get('wl') is not None:
         return      # a composite on caller-given wavelengths is judged by its samples at the would-be end points: model comparison only
     if o['same']:
@@ -262,7 +269,7 @@ def gen_cases(rng, count, nmax):
                 lo, hi = min(pts), max(pts)
                 wl = sorted({lo * (1 + (hi / lo - 1) * rng.random()) for _ in range(rng.randint(2, 6))})
                 if len(wl) >= 2:
-                    c2['wl'] = qs(wl)
+                    c2['wl'] = qs(wl[::-1] if rng.random() < 0.4 else wl)      # either order
             yield c2
 
 
